@@ -15,7 +15,7 @@ fn main() {
         let line = line.expect("stdin");
         let line = line.trim();
         if line.is_empty() || line.starts_with('#') { continue }
-        let w: Vec<&str> = line.split(' ').collect();
+        let w: Vec<&str> = line.split(' ').filter(|x| !x.starts_with('#')).collect();
         let r = util::guard(|| dispatch(&w)).unwrap_or_else(|| "panic".to_string());
         writeln!(out, "{}", r).unwrap();
     }
